@@ -128,6 +128,47 @@ type pkgInfo struct {
 type varInfo struct {
 	typ  string
 	file *ast.File
+	// what the package-level variable is bound to by its initialiser: "math/rand.Intn" (a
+	// function of another package), "regexp.MustCompile" (value built by that constructor),
+	// "methodvalue:<var>.<Method>" (a method value of another package-level variable), "" otherwise
+	binding string
+}
+
+// bindingOf describes the initialiser of a package-level variable (see varInfo.binding).
+func bindingOf(v ast.Expr, imps map[string]string, p *pkgInfo) string {
+	switch x := v.(type) {
+	case *ast.ParenExpr:
+		return bindingOf(x.X, imps, p)
+	case *ast.UnaryExpr:
+		return bindingOf(x.X, imps, p)
+	case *ast.CallExpr:
+		if sel, ok := x.Fun.(*ast.SelectorExpr); ok {
+			if id, ok := sel.X.(*ast.Ident); ok {
+				if path, ok := imps[id.Name]; ok && id.Obj == nil {
+					return path + "." + sel.Sel.Name
+				}
+			}
+		}
+		if id, ok := x.Fun.(*ast.Ident); ok {
+			return "call:" + id.Name
+		}
+	case *ast.SelectorExpr:
+		if id, ok := x.X.(*ast.Ident); ok {
+			if path, ok := imps[id.Name]; ok && id.Obj == nil {
+				if _, isVar := p.vars[id.Name]; !isVar {
+					return path + "." + x.Sel.Name
+				}
+			}
+			return "methodvalue:" + id.Name + "." + x.Sel.Name
+		}
+	case *ast.CompositeLit:
+		if x.Type != nil {
+			return "literal:" + typeStr(x.Type, imps, p)
+		}
+	case *ast.FuncLit:
+		return "funclit"
+	}
+	return ""
 }
 
 type translator struct {
@@ -143,6 +184,8 @@ type translator struct {
 	opaque map[string][]string
 	// functions outside the anchored files pulled in by the reference closure
 	reached []string
+	// binding of the package-level variables among the opaque objects
+	bindings map[string]string
 }
 
 func (t *translator) note(format string, a ...any) {
@@ -208,7 +251,11 @@ func loadPkg(id, dir string, generated bool, only map[string]bool) (*pkgInfo, er
 							} else if i < len(s.Values) {
 								ty = typeOfInit(s.Values[i], imps, p)
 							}
-							p.vars[n.Name] = varInfo{ty, f}
+							bd := ""
+							if i < len(s.Values) {
+								bd = bindingOf(s.Values[i], imps, p)
+							}
+							p.vars[n.Name] = varInfo{ty, f, bd}
 						}
 					}
 				}
@@ -862,12 +909,37 @@ func (w *walker) call(c *ast.CallExpr) []frag {
 			return w.exprs(c.Args)
 		}
 	}
-	// a mutator-named method on a shared object of unresolved type: opaque write
-	if sel, ok := c.Fun.(*ast.SelectorExpr); ok && w.phase == "request" && mutatorName.MatchString(sel.Sel.Name) {
+	// a method called on a shared object whose type is not defined in this package (nor a
+	// sync.* object): whether the call is safe under concurrency cannot be read off the source,
+	// so the object must be classified (opaque use, isolation discipline)
+	if sel, ok := c.Fun.(*ast.SelectorExpr); ok && w.phase == "request" {
 		if loc, shared, ext := w.locOf(sel.X); shared && !ext {
 			tx := w.typeOf(sel.X)
-			if !strings.HasPrefix(tx, "struct:") && !isSyncObj(tx) {
+			if !strings.HasPrefix(tx, "struct:") && !strings.HasPrefix(tx, "named:") && !isSyncObj(tx) {
 				w.t.opaque[loc] = append(w.t.opaque[loc], w.name+" "+w.pos(c)+" ."+sel.Sel.Name)
+				if id, ok := sel.X.(*ast.Ident); ok {
+					if vi, ok := w.p.vars[id.Name]; ok && loc == w.p.id+"."+id.Name {
+						w.t.bindings[loc] = vi.binding
+					}
+				}
+			}
+		}
+	}
+	// a call through a package-level variable of function type: what it is bound to decides
+	if id, ok := c.Fun.(*ast.Ident); ok && w.phase == "request" {
+		if vi, isVar := w.p.vars[id.Name]; isVar {
+			if loc, shared := w.classify(id); shared && loc == w.p.id+"."+id.Name {
+				w.t.opaque[loc] = append(w.t.opaque[loc], w.name+" "+w.pos(c)+" call through the variable")
+				w.t.bindings[loc] = vi.binding
+				if strings.HasPrefix(vi.binding, "methodvalue:") {
+					// calling it is calling that method on the other variable
+					tgt := strings.TrimPrefix(vi.binding, "methodvalue:")
+					obj := w.p.id + "." + tgt[:strings.Index(tgt, ".")]
+					w.t.opaque[obj] = append(w.t.opaque[obj], w.name+" "+w.pos(c)+" "+tgt[strings.Index(tgt, "."):]+" (through "+id.Name+")")
+					if ov, ok := w.p.vars[tgt[:strings.Index(tgt, ".")]]; ok {
+						w.t.bindings[obj] = ov.binding
+					}
+				}
 			}
 		}
 	}
@@ -1687,7 +1759,7 @@ func main() {
 	outJ := flag.String("json", "", "diagnostic JSON to write")
 	flag.Parse()
 
-	t := &translator{noteSet: map[string]bool{}, litSites: map[string]map[string]int{}, opaque: map[string][]string{}}
+	t := &translator{noteSet: map[string]bool{}, litSites: map[string]map[string]int{}, opaque: map[string][]string{}, bindings: map[string]string{}}
 	b, err := os.ReadFile(*phases)
 	if err != nil {
 		fatal("%v", err)
@@ -1885,13 +1957,15 @@ func main() {
 	// ---- isolation discipline: every request-phase shared write must be classified
 	var wt struct {
 		Locations map[string]struct {
-			Class string `json:"class"`
-			Why   string `json:"why"`
+			Class   string `json:"class"`
+			Why     string `json:"why"`
+			Binding string `json:"binding"`
 		} `json:"locations"`
 		Patterns []struct {
-			Regex string `json:"regex"`
-			Class string `json:"class"`
-			Why   string `json:"why"`
+			Regex      string `json:"regex"`
+			Class      string `json:"class"`
+			Why        string `json:"why"`
+			OpaqueOnly bool   `json:"opaque_only"`
 		} `json:"patterns"`
 	}
 	if *writesTbl != "" {
@@ -1910,6 +1984,7 @@ func main() {
 	}
 	writesAt := map[string][]string{}
 	nonIndex := map[string]bool{}
+	realWrite := map[string]bool{}
 	for _, b := range t.bodies {
 		for _, p := range b.Paths {
 			for _, a := range p {
@@ -1918,6 +1993,7 @@ func main() {
 					if !has(writesAt[a.Name], d) {
 						writesAt[a.Name] = append(writesAt[a.Name], d)
 					}
+					realWrite[a.Name] = true
 					if a.Shape != "index" {
 						nonIndex[a.Name] = true
 					}
@@ -1931,7 +2007,7 @@ func main() {
 		}
 		nonIndex[l] = true
 	}
-	classCoq := map[string]string{"memo": "WMemo", "monotone": "WMonotone", "private": "WPrivate"}
+	classCoq := map[string]string{"memo": "WMemo", "monotone": "WMonotone", "private": "WPrivate", "safe": "WSync"}
 	var isoV []isoViol
 	classesUsed := map[string]any{}
 	var classLines []string
@@ -1944,6 +2020,9 @@ func main() {
 		e, ok := wt.Locations[l]
 		if !ok {
 			for _, pt := range wt.Patterns {
+				if pt.OpaqueOnly && realWrite[l] {
+					continue
+				}
 				if regexp.MustCompile(pt.Regex).MatchString(l) {
 					e.Class, e.Why, ok = pt.Class, pt.Why, true
 					break
@@ -1955,10 +2034,12 @@ func main() {
 			isoV = append(isoV, isoViol{l, "request-phase code writes this shared location and shared_writes.json does not classify it (state written by one request can reach another)", writesAt[l]})
 		case classCoq[e.Class] == "":
 			fatal("shared_writes.json: %s has unknown class %q", l, e.Class)
+		case e.Binding != "" && e.Binding != t.bindings[l]:
+			isoV = append(isoV, isoViol{l, fmt.Sprintf("classified for the binding %q but the variable is now bound to %q: the justification no longer applies", e.Binding, t.bindings[l]), writesAt[l]})
 		case e.Class == "memo" && nonIndex[l]:
 			isoV = append(isoV, isoViol{l, "classified as a memo table but written other than by storing one key (cache[k] := v)", writesAt[l]})
 		default:
-			classesUsed[l] = map[string]any{"class": e.Class, "why": e.Why, "writes": writesAt[l]}
+			classesUsed[l] = map[string]any{"class": e.Class, "why": e.Why, "writes": writesAt[l], "binding": t.bindings[l]}
 			classLines = append(classLines, fmt.Sprintf("  (%d, %s) (* %s *)", locID[l], classCoq[e.Class], safeComment(l)))
 		}
 	}
@@ -2050,7 +2131,7 @@ func main() {
 		}
 	}
 	fmt.Fprintf(&v, "(* request-phase shared writes classified by translate/c20/shared_writes.json *)\nDefinition fp_write_classes : list (nat * wclass) := [\n%s\n].\n\n", strings.Join(classLines, "\n"))
-	fmt.Fprintf(&v, "(* shared objects of unresolved type on which request-phase code calls a mutator-named method *)\nDefinition fp_opaque_writes : list nat := [%s].\n", strings.Join(opaqueIDs, "; "))
+	fmt.Fprintf(&v, "(* shared objects of a type defined outside the package (and package-level function variables) that request-phase code calls *)\nDefinition fp_opaque_writes : list nat := [%s].\n", strings.Join(opaqueIDs, "; "))
 	if err := os.WriteFile(*outV, []byte(v.String()), 0o644); err != nil {
 		fatal("%v", err)
 	}
